@@ -65,3 +65,28 @@ k("C08",
   "Trusted: z3, grammar transcriptions, that Rio yields only grammar tokens. Outside: totality/termination/stack of the third-party lexers on arbitrary bytes, RDF/XML, JSON-LD.",
   "regex-language inclusion (grammar terminal ⊆ validator) decided by z3, witnesses replayed through the real parsers",
   "DESIGN.md 4 C08", level="proof")
+
+k("C01",
+  "Bounded model checking of the real Generic{Fast,Light}{Dataset,Graph} code (insert/remove with all secondary indexes, the 16-way/8-way index selection with its "
+  "range bounds and permutation closures, the five matching iterators with cached match flags, the shipped matcher types): for every history of 2 (thorough: 3 on graphs) "
+  "symbolic insert/remove operations and every value of the pattern constants, each mutation returns 'the set really changed' and each pattern query returns exactly the "
+  "matching members, each once. One harness per pattern shape / matcher kind; quick runs 20 of them, thorough all 70.",
+  "Trusted: Kani/CBMC; ordered-set model instead of std BTreeSet; identity term index (VTI) instead of SimpleTermIndex. Outside: quads()/triples() (compiler crash), "
+  "histories beyond the bound, literal/quoted-triple terms in stores, index-width exhaustion, foreign Vec/HashSet impls.",
+  "Kani proof harnesses (symbolic histories + pattern constants, list model oracle) decided by CBMC/SAT; counterexamples replayed natively on the real BTreeSet",
+  "DESIGN.md 4 C01")
+
+k("C02",
+  "Bounded model checking of the default Term::eq/cmp/hash, LanguageTag's case-folding Eq/Ord/Hash and NsTerm::eq: for three symbolic terms of each atomic kind "
+  "(incl. language tags differing only in case) eq is an equivalence that matches the 'same RDF term' oracle, cmp is antisymmetric, transitive and Equal exactly for equal terms, "
+  "equal terms feed identical bytes to the hasher; the cross-kind order blank<IRI<literal<triple<variable; NsTerm::eq == comparing namespace+suffix. Partial: quoted triples only by rank.",
+  "Trusted: Kani/CBMC. Outside: SimpleTerm/ArcTerm carriers and conversion paths, quoted triples as operands, strings beyond 1-2 bytes.",
+  "Kani proof harnesses over a lean all-kinds term type, decided by CBMC/SAT", "DESIGN.md 4 C02")
+
+k("C11",
+  "Bounded model checking of the generic view code (UnionGraph, PartialUnionGraph, DatasetGraph, GraphAsDataset, and the default quads_matching/triples_matching under them) "
+  "over an array-backed store of <=3 symbolic quads: every view shows exactly the triples of the selected quads (one per quad) for symbolic selectors/patterns, and a symbolic "
+  "insert/remove through a mutable view equals the direct mutation (flag and resulting store).",
+  "Trusted: Kani/CBMC. ArrDs/ArrG stand for user stores. Outside: iteration order, real stores under the views, bulk pattern mutations through views.",
+  "Kani proof harnesses (symbolic store content, selector, pattern, mutation) decided by CBMC/SAT; counterexamples replayed natively",
+  "DESIGN.md 4 C11")
